@@ -101,15 +101,25 @@ def census(out):
     return sorted((m[0], m[2], int(m[1]), int(m[3] or 0), int(m[4] or 0)) for m in HOLD_RE.findall(out))
 
 
+FOREVER = 0x7fffffffffffffff
+
+
+def minute_grain(x):
+    """holds whose deadline is re-armed from the restart's own clock with a granularity of a minute: MINUTE-unit terms, and
+    terms `unlimited, 0xffff` with a finite deadline (an update of that kind KEEPS the deadline, which may come from a
+    minute-unit record)"""
+    return bool(x[2] & 0x0040) or (bool(x[2] & 0x4000) and x[3] != FOREVER)
+
+
 def census_equal(a, b):
-    """same holds, depths, terms, values and deadlines (to the second; holds in MINUTE units are re-armed from the
-    restart's own clock with a granularity of a minute: tolerance one minute + the distance of the two restarts)"""
+    """same holds, depths, terms, values and deadlines (to the second; minute-grain deadlines: tolerance one minute + the
+    distance of the two restarts)"""
     if len(a) != len(b):
         return False
     for x, y in zip(a, b):
         if x[0] != y[0] or x[1] != y[1] or x[2] != y[2]:
             return False
-        if x[2] & 0x0040:
+        if minute_grain(x) and minute_grain(y):
             if abs((x[3] - x[4]) - (y[3] - y[4])) > 60 + abs(x[4] - y[4]):
                 return False
         elif x[3] != y[3]:
@@ -229,186 +239,189 @@ class Gen:
         return [self.step() for _ in range(n)]
 
 
-def parse_records(files):
-    """[(file, type, key, lockid, aofflag, value|None)] in load order (rewrite.aof, then the append files)"""
-    names = (["rewrite.aof"] if "rewrite.aof" in files else []) + \
+def aof_names(files):
+    """load order: rewrite.aof, then the append files by index"""
+    return (["rewrite.aof"] if "rewrite.aof" in files else []) + \
         sorted([f for f in files if re.fullmatch(r"append\.aof\.\d+", f)], key=lambda f: int(f.split(".")[2]))
+
+
+def parse_raw(files):
+    """[{file, raw (64 bytes), val (value frame or None)}] in load order"""
     res = []
-    for f in names:
+    for f in aof_names(files):
         body, dat, pos = files[f][12:], files.get(f + ".dat", b""), 0
         for i in range(0, len(body) - 63, 64):
             x = body[i:i + 64]
-            aofflag, val = int.from_bytes(x[55:57], "little"), None
-            if aofflag & 0x2000 and pos + 4 <= len(dat):
+            val = None
+            if int.from_bytes(x[55:57], "little") & 0x2000 and pos + 4 <= len(dat):
                 n = int.from_bytes(dat[pos:pos + 4], "little")
                 val = dat[pos:pos + 4 + n]
                 pos += 4 + n
-            res.append((f, x[2], x[37:53].hex(), x[21:37].hex(), aofflag, val))
+            res.append({"file": f, "raw": x, "val": val})
     return res
 
 
-def value_of_released_holder(ref_files, exp_census, cen):
-    """the two censuses differ ONLY in the value of keys whose expected value was written by a lock id that holds nothing any
-    more while other holders of the (shared) key remain: returns those keys"""
-    if len(exp_census) != len(cen):
-        return []
-    keys = set()
-    for x, y in zip(exp_census, cen):
-        if x[0] != y[0] or x[2] != y[2] or ((x[3] != y[3]) and not x[2] & 0x0040):
-            return []
-        if x[1] != y[1]:
-            keys.add(re.search(r"key=(\w+)", x[0]).group(1))
-    recs = parse_records(ref_files)
-    for k in keys:
-        holders = set(re.search(r"lockid=(\w+)", x[0]).group(1) for x in exp_census if "key=" + k in x[0])
-        want = [x[1] for x in exp_census if "key=" + k in x[0]][0]
-        last = [r for r in recs if r[2] == k and r[5] is not None and r[1] == 1]
-        if not last or "val=" + last[-1][5].hex() != want or last[-1][3] in holders:
-            return []
-    return sorted(keys)
+def rec_proj(r):
+    """a record without what differs between two runs of the same history: AofOffset/AofIndex and the REWRITED mark"""
+    x = r["raw"]
+    return (x[:3] + x[11:55] + bytes([x[55] & 0xfe]) + x[56:], r["val"])
 
 
-def ghosts_of_skipped_unlocks(ref_files, exp_census, cen, now):
-    """the reference (un-compacted log) recovers MORE holds than the compacted directory, and every extra one was released
-    in the reference history: its last record is a full UNLOCK which the loader skips as `expired` (the expiry filter of
-    LoadAofFile is applied to unlock records too), so only the un-compacted log brings the hold back.  Returns them."""
-    obs = set((x[0], x[1]) for x in cen)
-    extra = [x for x in exp_census if (x[0], x[1]) not in obs]
-    if not extra or len(exp_census) - len(extra) != len(cen):
-        return []
-    rest = [x for x in exp_census if (x[0], x[1]) in obs]
-    if not census_equal(rest, cen):
-        return []
-    raw = {}
-    names = (["rewrite.aof"] if "rewrite.aof" in ref_files else []) + \
-        sorted([f for f in ref_files if re.fullmatch(r"append\.aof\.\d+", f)], key=lambda f: int(f.split(".")[2]))
-    for f in names:
-        body = ref_files[f][12:]
-        for i in range(0, len(body) - 63, 64):
-            x = body[i:i + 64]
-            raw[(x[37:53].hex(), x[21:37].hex())] = x
-    for x in extra:
-        k, l = re.search(r"key=(\w+)", x[0]).group(1), re.search(r"lockid=(\w+)", x[0]).group(1)
-        last = raw.get((k, l))
-        if last is None or last[2] != 2 or last[63] != 0 or not c8.expired(last, now):
-            return []
-    return extra
+def rec_key(r):
+    return r["raw"][37:53].hex()
 
 
-def only_inherited_deadlines(exp_census, cen):
-    """the censuses differ only in the deadline of holds whose current terms say `unlimited, Expried 0xffff`: in an update
-    that combination means KEEP the deadline the hold has (UpdateLockedLock), so the deadline was set by an earlier record"""
-    if len(exp_census) != len(cen):
-        return []
-    res = []
-    for x, y in zip(exp_census, cen):
-        if x[0] != y[0] or x[1] != y[1] or x[2] != y[2]:
-            return []
-        if x[3] != y[3] and not x[2] & 0x0040:
-            if not x[2] & 0x4000:
-                return []
-            res.append((x[0], x[3], y[3]))
+def rec_lid(r):
+    return r["raw"][21:37].hex()
+
+
+def restrict_dir(files, recs, keep):
+    """the directory <files> with only the records recs[i], i in keep (same file names, values re-packed)"""
+    out = {}
+    for f in aof_names(files):
+        out[f], out[f + ".dat"] = files[f][:12], b""
+    for i, r in enumerate(recs):
+        if i in keep:
+            out[r["file"]] += r["raw"]
+            out[r["file"] + ".dat"] += r["val"] or b""
+    return out
+
+
+def census_by_key(c):
+    res = {}
+    for x in c:
+        res.setdefault(re.search(r"key=(\w+)", x[0]).group(1), []).append(x)
     return res
 
 
-def lost_after_expired_first_record(ref_files, exp_census, cen, now):
-    """the compacted directory lacks holds of the reference, everything else is equal, and for each of them the reference
-    history since its last full release starts with a LOCK record the loader skips as expired (the term was extended by a
-    later update) and contains a partial UNLOCK: with the update record dropped as superseded the depth is one short and
-    the partial release becomes a full one.  Returns them."""
-    obs = set((x[0], x[1]) for x in cen)
-    extra = [x for x in exp_census if (x[0], x[1]) not in obs]
-    if not extra or len(exp_census) - len(extra) != len(cen) or not census_equal([x for x in exp_census if (x[0], x[1]) in obs], cen):
-        return []
-    hist = {}
-    names = (["rewrite.aof"] if "rewrite.aof" in ref_files else []) + \
-        sorted([f for f in ref_files if re.fullmatch(r"append\.aof\.\d+", f)], key=lambda f: int(f.split(".")[2]))
-    for f in names:
-        body = ref_files[f][12:]
-        for i in range(0, len(body) - 63, 64):
-            x = body[i:i + 64]
-            h = hist.setdefault((x[37:53].hex(), x[21:37].hex()), [])
-            if x[2] == 2 and x[63] == 0:
-                del h[:]
-            else:
-                h.append(x)
-    for x in extra:
-        k, l = re.search(r"key=(\w+)", x[0]).group(1), re.search(r"lockid=(\w+)", x[0]).group(1)
-        h = hist.get((k, l), [])
-        if not h or h[0][2] != 1 or not c8.expired(h[0], now) or not any(r[2] == 2 and r[63] > 0 for r in h):
-            return []
-    return extra
+SIGS = {
+    "value": ("value-written-by-a-released-holder-of-a-shared-key-is-dropped",
+              "the compaction drops the lock/update record that carried the current value of a shared key because the lock id that wrote it holds nothing any more; "
+              "the remaining holders' older records carry the older value: after a restart key %s has its previous value"),
+    "deadline": ("deadline-kept-by-an-update-changes-when-the-update-that-set-it-is-dropped",
+                 "an update with EXPRIED_FLAG_UNLIMITED_EXPRIED_TIME and Expried 0xffff changes Count/Rcount and KEEPS the deadline the hold has; the compaction keeps "
+                 "that record (its terms are the current ones) and drops the earlier update that had set the deadline: after a restart a hold of key %s has another deadline"),
+    "outdated": ("update-record-with-outdated-value-is-dropped",
+                 "HasLock rejects the update record that carries a holder's CURRENT Count/Rcount when the record is of the `unlimited, Expried 0xffff` kind and the value "
+                 "stored with it is no longer the key's value (another holder of the shared key has set a new one): after compaction + restart the holder has the terms of "
+                 "its older record (key %s: Count falls back, holders that joined since are refused at replay, the value is the old one)"),
+    "sharer": ("sharer-lost-when-the-update-that-raised-Count-is-dropped",
+               "a holder changed the terms of its (shared) key by an update, another lock id joined the key under those terms, the first holder updated again: the compaction "
+               "keeps only the LAST update record of the first holder (HasLock compares with the current terms), which comes after the joiner's LOCK record in the log; at "
+               "replay the joiner's record meets the older terms: a hold of key %s is lost"),
+    "expired-first": ("hold-lost-after-expired-first-record-and-dropped-update",
+                      "a hold whose first LOCK record is over for the loader (its term was extended by an update, then the hold was re-entered and partially released): "
+                      "the compaction drops the update record as superseded by the re-entrant LOCK record; the un-compacted log recovers the hold because the update record "
+                      "stands in for the skipped LOCK record, the compacted one is a level short and the partial UNLOCK releases it: the hold of key %s is lost"),
+    "ghost": ("uncompacted-log-resurrects-a-released-hold",
+              "the un-compacted log brings back a hold that was released: the hold's term was shortened by an update, its UNLOCK record carries the short term and "
+              "is skipped by the loader's expiry filter once that term is over, the older LOCK record with the long term is loaded; the compaction (correctly) drops "
+              "all of them, so a restart recovers a hold of key %s only from the files the compaction replaced"),
+}
 
 
-def sharers_lost_after_count_update_dropped(ref_files, exp_census, cen):
-    """the compacted directory lacks holds of the reference, everything else is equal, and each lost hold joined a key
-    AFTER another holder had raised the key's Count by an update which that holder has since superseded by a later update:
-    compaction keeps only the later one, which now comes after the joiner's LOCK record, so the joiner is refused at replay"""
-    obs = set((x[0], x[1]) for x in cen)
-    extra = [x for x in exp_census if (x[0], x[1]) not in obs]
-    if not extra or len(exp_census) - len(extra) != len(cen) or not census_equal([x for x in exp_census if (x[0], x[1]) in obs], cen):
-        return []
-    raw = []
-    names = (["rewrite.aof"] if "rewrite.aof" in ref_files else []) + \
-        sorted([f for f in ref_files if re.fullmatch(r"append\.aof\.\d+", f)], key=lambda f: int(f.split(".")[2]))
-    for f in names:
-        body = ref_files[f][12:]
-        raw += [body[i:i + 64] for i in range(0, len(body) - 63, 64)]
-    for x in extra:
-        k, l = re.search(r"key=(\w+)", x[0]).group(1), re.search(r"lockid=(\w+)", x[0]).group(1)
-        recs = [r for r in raw if r[37:53].hex() == k]
-        joins = [i for i, r in enumerate(recs) if r[2] == 1 and r[21:37].hex() == l and not r[19] & 0x02]
-        if not joins:
-            return []
-        ok = False
-        for o in set(r[21:37].hex() for r in recs) - {l}:
-            before = [i for i, r in enumerate(recs) if i < joins[-1] and r[21:37].hex() == o and r[2] == 1 and r[19] & 0x02 and int.from_bytes(r[61:63], "little") >= 1]
-            after = [i for i, r in enumerate(recs) if i > joins[-1] and r[21:37].hex() == o and r[2] == 1 and r[19] & 0x02]
-            first = [r for r in recs if r[21:37].hex() == o and r[2] == 1]
-            if before and after and int.from_bytes(first[0][61:63], "little") < int.from_bytes(recs[before[-1]][61:63], "little"):
-                ok = True
-        if not ok:
-            return []
-    return extra
-
-
-def stale_value_update_dropped(ref_files, exp_census, cen):
-    """every key on which the two censuses differ has this history: a live holder's current terms come from an update record
-    with EXPRIED_FLAG_UNLIMITED_EXPRIED_TIME / Expried 0xffff that carries the key's value of that time, and ANOTHER lock id
-    has changed the value since (HasLock: `currentData` differs from the record's data and Count/Rcount are equal => false)"""
-    def by_key(c):
-        res = {}
-        for x in c:
-            res.setdefault(re.search(r"key=(\w+)", x[0]).group(1), []).append((x[0], x[1], x[2], x[3] if not x[2] & 0x40 else 0))
-        return res
-    a, b = by_key(exp_census), by_key(cen)
-    keys = [k for k in set(a) | set(b) if a.get(k) != b.get(k)]
+def attribute(ref_files, img_files, exp_census, cen, restart, now):
+    """Root cause of a snapshot that recovers to another state than its reference, decided from the HISTORY of each
+    differing key, independent of the scenario that produced it.  For every key on which the two censuses differ:
+      * the key's records in the reference (load order) and in the snapshot are compared as multisets (ids and the
+        REWRITED mark ignored): the snapshot must have no record the reference lacks; `dropped` = what the compaction
+        removed;
+      * the key is replayed IN ISOLATION on the real code (restart = a fresh node on a directory that contains only
+        that key's records): all reference records must give the key's expected holds, the reference records without
+        `dropped` must give the observed ones (so the difference is a function of the dropped records of this key);
+      * culprits = the dropped records that are NECESSARY: putting all dropped records back except that one does not
+        give the expected holds (checked again: the culprits alone, put back, do);
+      * every culprit must be a record of one of the recorded kinds (known_findings/C16.json), judged from the record
+        itself and the key's history.
+    Returns [(signature, text)] (one per root cause involved), or a string saying why the difference is not (completely)
+    explained => a new violation."""
+    a, b = census_by_key(exp_census), census_by_key(cen)
+    keys = sorted(k for k in set(a) | set(b) if not census_equal(a.get(k, []), b.get(k, [])))
     if not keys:
-        return []
-    recs = parse_records(ref_files)
-    raw = []
-    names = (["rewrite.aof"] if "rewrite.aof" in ref_files else []) + \
-        sorted([f for f in ref_files if re.fullmatch(r"append\.aof\.\d+", f)], key=lambda f: int(f.split(".")[2]))
-    for f in names:
-        body = ref_files[f][12:]
-        raw += [body[i:i + 64] for i in range(0, len(body) - 63, 64)]
+        return "no differing key"
+    ref_all, img_all = parse_raw(ref_files), parse_raw(img_files)
+    causes = {}
     for k in keys:
-        ok = False
-        idx = [i for i, r in enumerate(recs) if r[2] == k]
-        for j, i in enumerate(idx):
-            x = raw[i]
-            if not (x[2] == 1 and x[19] & 0x02 and recs[i][5] is not None and int.from_bytes(x[59:61], "little") & 0x4000 and x[57:59] == b"\xff\xff"):
-                continue
-            o = recs[i][3]
-            if any(raw[i2][2] == 1 and raw[i2][19] & 0x02 and recs[i2][3] == o for i2 in idx[j + 1:]):
-                continue                                    # not the holder's last update
-            live = [h for h in a.get(k, []) if "lockid=" + o in h[0] and "count=%d rcount=%d" % (int.from_bytes(x[61:63], "little"), x[63]) in h[0]]
-            later = [i2 for i2 in idx[j + 1:] if recs[i2][3] != o and recs[i2][5] is not None and recs[i2][5] != recs[i][5] and raw[i2][2] == 1]
-            if live and later:
-                ok = True
-        if not ok:
-            return []
-    return sorted(keys)
+        ref_k = [r for r in ref_all if rec_key(r) == k]
+        img_k = [r for r in img_all if rec_key(r) == k]
+        pool = [rec_proj(r) for r in img_k]
+        dropped = []
+        for i, r in enumerate(ref_k):
+            pr = rec_proj(r)
+            if pr in pool:
+                pool.remove(pr)
+            else:
+                dropped.append(i)
+        if pool or not dropped:
+            return "key %s: %d records in the snapshot that the reference history lacks, %d dropped" % (k, len(pool), len(dropped))
+        everything = set(range(len(ref_k)))
+
+        def replay(keep):
+            ok, c, _ = restart(restrict_dir(ref_files, ref_k, keep))
+            return c if ok else None
+
+        def same(c, want):
+            return c is not None and census_equal(c, want)
+        if not same(replay(everything), a.get(k, [])) or not same(replay(everything - set(dropped)), b.get(k, [])):
+            return "key %s: replayed in isolation the key's records do not give its expected / observed holds" % k
+        needed = [i for i in dropped if not same(replay(everything - {i}), a.get(k, []))]
+        if not needed or not same(replay((everything - set(dropped)) | set(needed)), a.get(k, [])):
+            needed = list(dropped)                      # alternatives among the dropped records: greedy minimisation
+            for i in list(dropped):
+                if same(replay((everything - set(dropped)) | (set(needed) - {i})), a.get(k, [])):
+                    needed.remove(i)
+        live = set(re.search(r"lockid=(\w+)", x[0]).group(1) for x in a.get(k, []))
+        expval = a[k][0][1] if a.get(k) else None
+        kinds = set()
+        for i in needed:
+            x, lid = ref_k[i]["raw"], rec_lid(ref_k[i])
+            later = [r for r in ref_k[i + 1:] if rec_lid(r) == lid]
+            mine = [r for r in ref_k if rec_lid(r) == lid]
+            is_update = x[2] == 1 and bool(x[19] & 0x02)
+            keep_kind = bool(int.from_bytes(x[59:61], "little") & 0x4000) and x[57:59] == b"\xff\xff"
+            released_unseen = mine[-1]["raw"][2] == 2 and mine[-1]["raw"][63] == 0 and c8.expired(mine[-1]["raw"], now)
+            if lid in live and x[2] == 1 and released_unseen:
+                kinds.add("ghost")                       # the lock id was released; the loader skips the UNLOCK record
+            elif lid not in live:
+                kinds.add("released")                    # a record of a lock id that holds nothing any more
+            elif is_update and any(r["raw"][2] == 1 for r in later):
+                hist = []                                # this lock id's records since its last full release
+                for r in mine:
+                    hist = [] if (r["raw"][2] == 2 and r["raw"][63] == 0) else hist + [r]
+                if hist and hist[0]["raw"][2] == 1 and c8.expired(hist[0]["raw"], now):
+                    kinds.add("superseded-update-after-expired-first-record")
+                else:
+                    kinds.add("superseded-update")       # a later LOCK/update record of the same lock id exists
+            elif is_update and keep_kind and ref_k[i]["val"] is not None and expval is not None and "val=" + ref_k[i]["val"].hex() != expval:
+                kinds.add("outdated-value-update")
+            else:
+                return "key %s: necessary dropped record of no recorded kind (e.g. the CURRENT update record of a live hold): %s" % (k, x.hex())
+        ea, eb = a.get(k, []), b.get(k, [])
+        terms_equal = len(ea) == len(eb) and all(x[0] == y[0] and x[2] == y[2] for x, y in zip(ea, eb))
+        if kinds == {"ghost"} or kinds == {"ghost", "released"}:
+            cause = "ghost"
+        elif kinds == {"released"}:
+            writer = any(ref_k[i]["raw"][2] == 1 and ref_k[i]["val"] is not None and "val=" + ref_k[i]["val"].hex() == expval for i in needed)
+            cause = "value" if (writer and terms_equal and all(census_equal([x[:1] + y[1:2] + x[2:]], [y]) for x, y in zip(ea, eb))) else None
+        elif kinds == {"superseded-update"}:
+            culprit_lids = set(rec_lid(ref_k[i]) for i in needed)
+            if terms_equal and all(x[1] == y[1] for x, y in zip(ea, eb)):
+                cause = "deadline"                       # only deadlines differ
+            elif len(eb) < len(ea) and all(any(census_equal([x], [y]) for x in ea) for y in eb) and \
+                    any(re.search(r"lockid=(\w+)", x[0]).group(1) not in culprit_lids for x in ea if not any(x[0] == y[0] for y in eb)):
+                cause = "sharer"                         # a hold of ANOTHER lock id is missing
+            else:
+                cause = None
+        elif kinds == {"superseded-update-after-expired-first-record"}:
+            cause = "expired-first"
+        elif kinds == {"outdated-value-update"}:
+            cause = "outdated"
+        else:
+            cause = None
+        if cause is None:
+            return "key %s: dropped records of kind %s, but the effect matches no recorded root cause" % (k, sorted(kinds))
+        causes.setdefault(cause, k)
+    return [(SIGS[c][0], SIGS[c][1] % k) for c, k in sorted(causes.items())]
 
 
 def dir_diff(got, want):
@@ -516,8 +529,15 @@ def run(ctx):
         cache[key] = (("init ok" in out), census(out), out)
         return cache[key]
 
+    why_not = [""]
+
     def classify(pt, files, okk, cen, exp_census, ref_files):
-        """signature of a snapshot that does not recover to the reference"""
+        """signature(s) of a snapshot that does not recover to the reference"""
+        why_not[0] = ""
+        r = classify1(pt, files, okk, cen, exp_census, ref_files)
+        return r if isinstance(r, list) else [r]
+
+    def classify1(pt, files, okk, cen, exp_census, ref_files):
         if pt in (201, 202) and "rewrite.aof.tmp" in files and "rewrite.aof" not in files:
             return ("crash-after-inputs-removed-before-rename",
                     "compaction removes its input files before renaming rewrite.aof.tmp into place: a crash in between loses every compacted hold (restart recovers %d of %d holds)" % (len(cen), len(exp_census)))
@@ -525,40 +545,10 @@ def run(ctx):
             return ("crash-between-the-two-renames",
                     "rewrite.aof and rewrite.aof.dat are renamed separately: a crash in between leaves records whose values are missing (%s)" % ("start fails" if not okk else "restart recovers %d of %d holds" % (len(cen), len(exp_census))))
         if okk:
-            ks = value_of_released_holder(ref_files, exp_census, cen)
-            if ks:
-                return ("value-written-by-a-released-holder-of-a-shared-key-is-dropped",
-                        "the compaction drops the lock/update record that carried the current value of a shared key because the lock id that wrote it holds nothing any more; "
-                        "the remaining holders' older records carry the older value: after a restart key %s has its previous value" % ks[0])
-            inh = only_inherited_deadlines(exp_census, cen)
-            if inh:
-                return ("deadline-kept-by-an-update-changes-when-the-update-that-set-it-is-dropped",
-                        "an update with EXPRIED_FLAG_UNLIMITED_EXPRIED_TIME and Expried 0xffff changes Count/Rcount and KEEPS the deadline the hold has; the compaction keeps "
-                        "that record (its terms are the current ones) and drops the earlier update that had set the deadline: after a restart the hold %s ends at %d instead of %d" % inh[0])
-            sv = stale_value_update_dropped(ref_files, exp_census, cen)
-            if sv:
-                return ("update-record-with-outdated-value-is-dropped",
-                        "HasLock rejects the update record that carries a holder's CURRENT Count/Rcount when the record is of the `unlimited, Expried 0xffff` kind and the value "
-                        "stored with it is no longer the key's value (another holder of the shared key has set a new one): after compaction + restart the holder has the terms of "
-                        "its older record (key %s: Count falls back, holders that joined since are refused at replay, the value is the old one)" % sv[0])
-            sl = sharers_lost_after_count_update_dropped(ref_files, exp_census, cen)
-            if sl:
-                return ("sharer-lost-when-the-update-that-raised-Count-is-dropped",
-                        "a holder raised the Count of its key by an update, a second lock id then joined the key, the first holder updated again: the compaction keeps only "
-                        "the LAST update record of the first holder (HasLock compares with the current terms), which comes after the joiner's LOCK record in the log; at replay "
-                        "the key is still exclusive when the joiner's record arrives: %s is lost" % sl[0][0])
-            lo = lost_after_expired_first_record(ref_files, exp_census, cen, int(time.time()))
-            if lo:
-                return ("hold-lost-after-expired-first-record-and-dropped-update",
-                        "a hold whose first LOCK record is over for the loader (its term was extended by an update, then the hold was re-entered and partially released): "
-                        "the compaction drops the update record as superseded by the re-entrant LOCK record; the un-compacted log recovers the hold because the update record "
-                        "stands in for the skipped LOCK record, the compacted one is a level short and the partial UNLOCK releases it: %s is lost" % lo[0][0])
-            gh = ghosts_of_skipped_unlocks(ref_files, exp_census, cen, int(time.time()))
-            if gh:
-                return ("uncompacted-log-resurrects-a-released-hold",
-                        "the un-compacted log brings back a hold that was released: the hold's term was shortened by an update, its UNLOCK record carries the short term and "
-                        "is skipped by the loader's expiry filter once that term is over, the older LOCK record with the long term is loaded; the compaction (correctly) drops "
-                        "all of them, so a restart recovers %d holds from the compacted directory and %d from the files it replaced (%s)" % (len(cen), len(exp_census), gh[0][0]))
+            att = attribute(ref_files, files, exp_census, cen, inst_census, int(time.time()))
+            if isinstance(att, list):
+                return att
+            why_not[0] = att
         if "rewrite.aof.tmp" in ref_files and pt in (203, 204, 299):
             return ("stale-rewrite-tmp-is-appended-to",
                     "a rewrite.aof.tmp left behind by an interrupted compaction is not removed at start-up (clearAofFiles is never called): the next compaction "
@@ -574,14 +564,15 @@ def run(ctx):
         distinct.add((name, pt, kk, okk, len(cen)))
         if okk == exp_ok and census_equal(cen, exp_census):
             return True
-        sig, what = classify(pt, files, okk, cen, exp_census, ref_files)
-        stats["hits"][sig] = stats["hits"].get(sig, 0) + 1
-        if sig not in witnesses:
-            rep = {"scenario": name, "crash_point": pt, "mutations_done": kk,
-                   "crash_image": {f: c8.hx(b) for f, b in files.items()},
-                   "expected_census": census_show(exp_census), "observed_census": census_show(cen), "init_ok": okk}
-            rep.update(extra)
-            witnesses[sig] = (what, rep)
+        for sig, what in classify(pt, files, okk, cen, exp_census, ref_files):
+            stats["hits"][sig] = stats["hits"].get(sig, 0) + 1
+            if sig not in witnesses:
+                rep = {"scenario": name, "crash_point": pt, "mutations_done": kk,
+                       "crash_image": {f: c8.hx(b) for f, b in files.items()},
+                       "expected_census": census_show(exp_census), "observed_census": census_show(cen), "init_ok": okk,
+                       "not_attributed_to_a_recorded_root_cause_because": why_not[0]}
+                rep.update(extra)
+                witnesses[sig] = (what, rep)
         return False
 
     def model_states(pre, rotate, cur, live):
